@@ -373,6 +373,11 @@ func C06(c *core.Ctx) {
 		}
 	}
 	checkSendCaches(c, "R3", a.rxSend, msgBufRx, raddrRx, a)
+	// the response is retained under, and sent to, the address of the request it answers (C08 R2): a response
+	// sent to another address overwrites what that other peer's transaction retains
+	shareFrom(c, "C08", "R3", func(o *core.Obligation) bool {
+		return o.Rule == "R2" && (strings.Contains(o.Key, "/R2/destination:") || strings.Contains(o.Key, "/R2/sends-built-response:"))
+	}, 5, "response send sites")
 	// duplicate path in recv
 	ws := socketWrites(a.rxRecv, a)
 	c.Check("R3", "replay-once", a.rxRecv.Pos(), len(ws) == 1, fmt.Sprintf("%d socket writes in RxTransaction.recv (want 1: the replay)", len(ws)))
@@ -423,6 +428,7 @@ func C06(c *core.Ctx) {
 	}
 	c.Check("R4", "timer-started", a.newRx.Pos(), started, "every new receive transaction starts its retention timer")
 	checkTimerCallback(c, "R4", a.rxStart, "RxTransaction", 1, "timeout")
+	timerArmers(c, "R4", a)
 	losslessPost(c, "R4", p.SSAFn(p.Method(pkgPfcp, "PfcpServer", "NotifyTransTimeout")), p.Field(pkgPfcp, "PfcpServer", "trToCh"), "expiry of a transaction timer")
 	// retention expression
 	timeoutF := p.Field(pkgPfcp, "RxTransaction", "timeout")
@@ -916,6 +922,7 @@ func C09(c *core.Ctx) {
 	}
 	checkSendCaches(c, "R2", a.txSend, msgBufTx, raddrTx, a)
 	checkTimerCallback(c, "R2", a.txStart, "TxTransaction", 0, "retransTimeout")
+	timerArmers(c, "R2", a)
 	losslessPost(c, "R2", p.SSAFn(p.Method(pkgPfcp, "PfcpServer", "NotifyTransTimeout")), p.Field(pkgPfcp, "PfcpServer", "trToCh"), "expiry of a retransmission timer")
 	checkTimeoutArm(c, "R2", a, "TxTransaction", a.txTrans)
 	// the first timer is started by send before the write
@@ -1052,4 +1059,31 @@ func sendReqAlwaysBooks(c *core.Ctx, rule string) {
 		pos = r.Pos()
 	}
 	c.Check(rule, "request-always-booked", pos, r == nil && len(books) > 0, "every request handed to sendReqTo is entered in the transmit table (the only earlier exit is the not-a-request guard)")
+}
+
+// timerArmers: a transaction holds one timer; a new one is armed only where none can be running - by the
+// constructor / first send, or inside handleTimeout (the previous timer has just fired). Arming elsewhere
+// (e.g. on a duplicate request) overwrites a running timer: it stays armed, unreachable from the tables,
+// and later expires a NEWER transaction stored under the same key.
+func timerArmers(c *core.Ctx, rule string, a *txAnchors) {
+	p := c.P
+	allowed := map[string]map[*ssa.Function]bool{
+		"RxTransaction": {a.newRx: true, a.rxStart: true},
+		"TxTransaction": {a.txSend: true, a.txTimeout: true, a.txStart: true},
+	}
+	n := 0
+	for typ, okFns := range allowed {
+		f := p.Field(pkgPfcp, typ, "timer")
+		for _, fn := range p.OwnFuncs() {
+			for _, st := range storesToField(fn, f) {
+				if core.IsNilConst(st.Val) {
+					continue
+				}
+				n++
+				c.Check(rule, "timer-armer:"+typ+":"+core.FnName(fn), st.Pos(), okFns[fn],
+					typ+".timer is armed only by the constructor / first send and by handleTimeout (never while a timer may still be running)")
+			}
+		}
+	}
+	c.Floor(rule, n, 3, "sites arming a transaction timer")
 }
